@@ -1,5 +1,6 @@
 import Dnp3.Model.OutstationTrace
 import Dnp3.Proofs.Database
+import Dnp3.Proofs.FreezeAtTime
 /-!
 # C12 — outstation replies are well-formed, correlated, bounded, and report rejections
 
@@ -17,11 +18,13 @@ Contents
 4. `silent_functions_nonread`, `silent_functions_partial`, `silent_confirm_idle`.
 5. `rejection_flagged_*`, `rejection_header_broadcast_silent`, `popRequest_foreign` (D6 repaired),
    `parseObjects_error`, `write_accumulates`,
-   `write_rejection_flagged` (full; D7 repaired), `rejection_flagged_write`.
+   `write_rejection_flagged` (full; D7 repaired), `rejection_flagged_write`,
+   `rejection_flagged_freeze_at_time` (FREEZE_AT_TIME: `freezeAtRej`), `rejection_flagged_freeze_at_time_nonread`.
 6. `handleControls_total`, `operate_echo_overflow_clean` (D1 repaired), `select_echo_overflow_clean` (D13) and evaluated counterexamples.
 -/
 namespace Dnp3.Proofs.C12
 open Dnp3
+open Dnp3.Proofs.FreezeAtTime
 
 /-! ## Database contract (the database component is opaque) -/
 
@@ -297,6 +300,10 @@ theorem Good.handleFreeze {cfg : OCfg} {a : Acc} (h : Good cfg a) (seq : Nat) (k
   intro p hd hp
   exact hp.handleFreezeHeader k hd
 
+theorem Good.handleFreezeAtTime {cfg : OCfg} {a : Acc} (h : Good cfg a) (seq : Nat) (hs : List ObjHdr) :
+    Good cfg (handleFreezeAtTime a seq hs).1 ∧ ∃ i, (handleFreezeAtTime a seq hs).2 = emptySolicited seq i :=
+  ⟨handleFreezeAtTime_inv (Good cfg) (fun _ hd hb => hb.handleFreezeHeader .atTime hd) a seq hs h, _, rfl⟩
+
 theorem Good.handleEnableDisable {cfg : OCfg} {a : Acc} (h : Good cfg a) (en : Bool) (seq : Nat) (hs : List ObjHdr) :
     Good cfg (handleEnableDisable a en seq hs).1 ∧ ∃ i, (handleEnableDisable a en seq hs).2 = emptySolicited seq i := by
   unfold Dnp3.handleEnableDisable
@@ -571,8 +578,8 @@ def nonReadRes (a : Acc) (func seq frameId : Nat) (hs : List ObjHdr) (raw : List
   else if func = 8 then some ((handleFreeze a seq .immediate hs).1, none)
   else if func = 9 then some ((handleFreeze a seq .clear hs).1, some (handleFreeze a seq .clear hs).2)
   else if func = 10 then some ((handleFreeze a seq .clear hs).1, none)
-  else if func = 11 then some (a, some (emptySolicited seq (if hs.isEmpty then 0 else iin2ParamError)))
-  else if func = 12 then some (a, none)
+  else if func = 11 then some ((handleFreezeAtTime a seq hs).1, some (handleFreezeAtTime a seq hs).2)
+  else if func = 12 then some ((handleFreezeAtTime a seq hs).1, none)
   else if func = 20 then some ((handleEnableDisable a true seq hs).1, some (handleEnableDisable a true seq hs).2)
   else if func = 21 then some ((handleEnableDisable a false seq hs).1, some (handleEnableDisable a false seq hs).2)
   else some (a, some (emptySolicited seq iin2NoFunc))
@@ -646,11 +653,11 @@ theorem Good.nonReadRes {cfg : OCfg} {a a' : Acc} (h : Good cfg a) {func seq fra
   rw [if_neg c9] at hn
   by_cases c10 : func = 11
   · rw [if_pos c10] at hn; simp only [Option.some.injEq, Prod.mk.injEq] at hn; obtain ⟨rfl, rfl⟩ := hn
-    exact fromEmpty (p := (_, _)) ⟨h, _, rfl⟩
+    exact fromEmpty (h.handleFreezeAtTime seq hs)
   rw [if_neg c10] at hn
   by_cases c11 : func = 12
   · rw [if_pos c11] at hn; simp only [Option.some.injEq, Prod.mk.injEq] at hn; obtain ⟨rfl, rfl⟩ := hn
-    exact ⟨h, noResp⟩
+    exact ⟨(h.handleFreezeAtTime seq hs).1, noResp⟩
   rw [if_neg c11] at hn
   by_cases c12 : func = 20
   · rw [if_pos c12] at hn; simp only [Option.some.injEq, Prod.mk.injEq] at hn; obtain ⟨rfl, rfl⟩ := hn
@@ -940,6 +947,10 @@ theorem ModeIs.handleFreeze {m : Mode} {a : Acc} (h : ModeIs m a) (seq : Nat) (k
   intro p hd hp
   exact hp.handleFreezeHeader k hd
 
+theorem ModeIs.handleFreezeAtTime {m : Mode} {a : Acc} (h : ModeIs m a) (seq : Nat) (hs : List ObjHdr) :
+    ModeIs m (handleFreezeAtTime a seq hs).1 :=
+  handleFreezeAtTime_inv (ModeIs m) (fun _ hd hb => hb.handleFreezeHeader .atTime hd) a seq hs h
+
 theorem ModeIs.handleEnableDisable {m : Mode} {a : Acc} (h : ModeIs m a) (en : Bool) (seq : Nat) (hs : List ObjHdr) :
     ModeIs m (handleEnableDisable a en seq hs).1 := by
   unfold Dnp3.handleEnableDisable
@@ -1089,11 +1100,11 @@ theorem ModeIs.nonReadRes {m : Mode} {a a' : Acc} (h : ModeIs m a) {func seq fra
   rw [if_neg c9] at hn
   by_cases c10 : func = 11
   · rw [if_pos c10] at hn; simp only [Option.some.injEq, Prod.mk.injEq] at hn; obtain ⟨rfl, _⟩ := hn
-    exact h
+    exact h.handleFreezeAtTime _ _
   rw [if_neg c10] at hn
   by_cases c11 : func = 12
   · rw [if_pos c11] at hn; simp only [Option.some.injEq, Prod.mk.injEq] at hn; obtain ⟨rfl, _⟩ := hn
-    exact h
+    exact h.handleFreezeAtTime _ _
   rw [if_neg c11] at hn
   by_cases c12 : func = 20
   · rw [if_pos c12] at hn; simp only [Option.some.injEq, Prod.mk.injEq] at hn; obtain ⟨rfl, _⟩ := hn
@@ -1218,7 +1229,7 @@ theorem Good.processBroadcast {cfg : OCfg} {a a' : Acc} (h : Good cfg a) {f : Fr
       rw [if_neg c10] at hp
       by_cases c12 : func = 12
       · rw [if_pos c12] at hp; simp only [Option.some.injEq] at hp; subst hp
-        exact h0.emitCb _
+        exact (h0.handleFreezeAtTime _ _).1.emitCb _
       rw [if_neg c12] at hp
       by_cases c24 : func = 24
       · rw [if_pos c24] at hp; simp only [Option.some.injEq] at hp; subst hp
@@ -2649,6 +2660,78 @@ theorem rejection_flagged_freeze (a : Acc) (seq : Nat) (k : FreezeKind) (hs : Li
   rw [handleFreeze_iin2]
   exact foldl_or_mem freezeRej _ hs 0 h hm (by rw [hrej]; exact HasBits.self _)
 
+/-- a g50v2 (time and interval) header with exactly one object: it arms FREEZE_AT_TIME -/
+def isFreezeTiming (h : ObjHdr) : Bool := h.group = 50 ∧ h.var = 2 ∧ h.a = 1
+
+/-- what one header of a FREEZE_AT_TIME request contributes to IIN2; `timing` = a valid g50v2 header came
+    before it: PARAMETER_ERROR for a g50v2 header whose count is not 1 and for any other header that is
+    not preceded by a valid g50v2, else the verdict of the freeze itself -/
+def freezeAtRej (timing : Bool) (h : ObjHdr) : Nat :=
+  if h.group = 50 ∧ h.var = 2 then (if h.a = 1 then 0 else iin2ParamError)
+  else if timing then freezeRej h else iin2ParamError
+
+theorem freezeAtTimeStep_snd (p : Acc × Nat × Bool) (h : ObjHdr) :
+    (freezeAtTimeStep p h).2 = (p.2.1 ||| freezeAtRej p.2.2 h, p.2.2 || isFreezeTiming h) := by
+  obtain ⟨a, i, t⟩ := p
+  unfold freezeAtTimeStep freezeAtRej isFreezeTiming
+  by_cases hg : h.group = 50 ∧ h.var = 2
+  · by_cases ha : h.a = 1
+    · simp [hg, ha]
+    · simp [hg, ha]
+  · cases t
+    · have : ¬ (h.group = 50 ∧ h.var = 2 ∧ h.a = 1) := fun c => hg ⟨c.1, c.2.1⟩
+      simp [hg, this]
+    · simp [hg, handleFreezeHeader_iin]
+
+theorem freezeAtTime_foldl_timing : ∀ (hs : List ObjHdr) (p : Acc × Nat × Bool),
+    (hs.foldl freezeAtTimeStep p).2.2 = (p.2.2 || hs.any isFreezeTiming)
+  | [], p => by simp
+  | h :: hs, p => by
+    rw [List.foldl_cons, freezeAtTime_foldl_timing hs, freezeAtTimeStep_snd]
+    simp [Bool.or_assoc]
+
+theorem freezeAtTime_foldl_mono (m : Nat) : ∀ (hs : List ObjHdr) (p : Acc × Nat × Bool), HasBits p.2.1 m →
+    HasBits (hs.foldl freezeAtTimeStep p).2.1 m
+  | [], _, h => h
+  | hd :: hs, p, h => by
+    rw [List.foldl_cons]
+    refine freezeAtTime_foldl_mono m hs _ ?_
+    rw [freezeAtTimeStep_snd]
+    exact h.or_left _
+
+/-- (e1') FREEZE_AT_TIME: for ANY header `h` of the request — at any position — every IIN2 bit of its
+    verdict `freezeAtRej` (given whether a valid g50v2 header precedes it) is set in the response record -/
+theorem rejection_flagged_freeze_at_time (a : Acc) (seq : Nat) (pre : List ObjHdr) (h : ObjHdr) (post : List ObjHdr)
+    (m : Nat) (hrej : HasBits (freezeAtRej (pre.any isFreezeTiming) h) m) :
+    HasBits (handleFreezeAtTime a seq (pre ++ h :: post)).2.iin2 m := by
+  rw [handleFreezeAtTime_eq]
+  show HasBits (List.foldl freezeAtTimeStep (a, 0, false) (pre ++ h :: post)).2.1 m
+  rw [List.foldl_append, List.foldl_cons]
+  refine freezeAtTime_foldl_mono m post _ ?_
+  rw [freezeAtTimeStep_snd, freezeAtTime_foldl_timing]
+  exact hrej.or_right _
+
+/-- the same at the level of `handle_non_read`: the response record of FREEZE_AT_TIME (11) carries the
+    request's sequence number and every IIN2 bit any of its headers was rejected with -/
+theorem rejection_flagged_freeze_at_time_nonread (a : Acc) (seq frameId : Nat) (pre : List ObjHdr) (h : ObjHdr)
+    (post : List ObjHdr) (raw : List Nat) (m : Nat) (hrej : HasBits (freezeAtRej (pre.any isFreezeTiming) h) m) :
+    ∃ a' r, handleNonRead a 11 seq frameId (pre ++ h :: post) raw = some (a', some r) ∧ r.ctrl.seq = seq ∧
+      HasBits r.iin2 m := by
+  have hn : nonReadRes a 11 seq frameId (pre ++ h :: post) raw =
+      some ((handleFreezeAtTime a seq (pre ++ h :: post)).1, some (handleFreezeAtTime a seq (pre ++ h :: post)).2) := by
+    simp [nonReadRes]
+  rw [handleNonRead_eq, hn]
+  exact ⟨_, _, rfl, rfl, (rejection_flagged_freeze_at_time a seq pre h post m hrej).or_left _⟩
+
+-- hypotheses of `rejection_flagged_freeze_at_time`: a counter header with no g50v2 before it, a g50v2 with
+-- count 2, and an analog header after a valid g50v2
+example : freezeAtRej (([] : List ObjHdr).any isFreezeTiming) ⟨20, 0, 6, 0, 0, []⟩ = iin2ParamError := by decide
+example : freezeAtRej (([] : List ObjHdr).any isFreezeTiming) ⟨50, 2, 7, 2, 0, []⟩ = iin2ParamError := by decide
+example : freezeAtRej ([(⟨50, 2, 7, 1, 0, []⟩ : ObjHdr)].any isFreezeTiming) ⟨30, 0, 6, 0, 0, []⟩ = iin2NoFunc := by decide
+-- an accepted request (g50v2 count 1, then all counters) adds no IIN2 bit
+example (a : Acc) : (handleFreezeAtTime a 3 [⟨50, 2, 7, 1, 0, []⟩, ⟨20, 0, 6, 0, 0, []⟩]).2.iin2 = 0 := by
+  simp [handleFreezeAtTime, handleFreezeHeader, emptySolicited]
+
 /-- an ENABLE/DISABLE UNSOLICITED header the session rejects -/
 def enableRej (h : ObjHdr) : Nat :=
   if h.group = 60 ∧ h.qual = 0x06 ∧ (h.var = 2 ∨ h.var = 3 ∨ h.var = 4) then 0 else iin2NoFunc
@@ -2900,6 +2983,10 @@ theorem CbOnly.handleFreeze {base : List OOut} {a : Acc} (h : CbOnly base a) (se
   intro p hd hp
   exact hp.handleFreezeHeader k hd
 
+theorem CbOnly.handleFreezeAtTime {base : List OOut} {a : Acc} (h : CbOnly base a) (seq : Nat)
+    (hs : List ObjHdr) : CbOnly base (handleFreezeAtTime a seq hs).1 :=
+  handleFreezeAtTime_inv (CbOnly base) (fun _ hd hb => hb.handleFreezeHeader .atTime hd) a seq hs h
+
 theorem CbOnly.handleEnableDisable {base : List OOut} {a : Acc} (h : CbOnly base a) (en : Bool) (seq : Nat)
     (hs : List ObjHdr) : CbOnly base (handleEnableDisable a en seq hs).1 := by
   unfold Dnp3.handleEnableDisable
@@ -3048,11 +3135,11 @@ theorem CbOnly.nonReadRes {base : List OOut} {a a' : Acc} (h : CbOnly base a) {f
   rw [if_neg c9] at hn
   by_cases c10 : func = 11
   · rw [if_pos c10] at hn; simp only [Option.some.injEq, Prod.mk.injEq] at hn; obtain ⟨rfl, _⟩ := hn
-    exact h
+    exact h.handleFreezeAtTime _ _
   rw [if_neg c10] at hn
   by_cases c11 : func = 12
   · rw [if_pos c11] at hn; simp only [Option.some.injEq, Prod.mk.injEq] at hn; obtain ⟨rfl, _⟩ := hn
-    exact h
+    exact h.handleFreezeAtTime _ _
   rw [if_neg c11] at hn
   by_cases c12 : func = 20
   · rw [if_pos c12] at hn; simp only [Option.some.injEq, Prod.mk.injEq] at hn; obtain ⟨rfl, _⟩ := hn
@@ -3122,7 +3209,7 @@ theorem CbOnly.processBroadcast {base : List OOut} {a a' : Acc} (h : CbOnly base
       rw [if_neg c10] at hp
       by_cases c12 : func = 12
       · rw [if_pos c12] at hp; simp only [Option.some.injEq] at hp; subst hp
-        exact h0.emitCb _
+        exact (h0.handleFreezeAtTime _ _).emitCb _
       rw [if_neg c12] at hp
       by_cases c24 : func = 24
       · rw [if_pos c24] at hp; simp only [Option.some.injEq] at hp; subst hp
@@ -3265,7 +3352,7 @@ theorem silent_functions_nonread_total (a : Acc) (func seq frameId : Nat) (hs : 
       · exact ⟨(ctlFinish (ctlAll (some CtlKind.donr) 0 a.1.cfg.maxctl hs { acc := a, cap := a.1.cfg.sol - 4 })).acc, by simp⟩
     · exact ⟨(handleFreeze a seq FreezeKind.immediate hs).1, by simp⟩
     · exact ⟨(handleFreeze a seq FreezeKind.clear hs).1, by simp⟩
-    · exact ⟨a, by simp⟩
+    · exact ⟨(handleFreezeAtTime a seq hs).1, by simp⟩
   obtain ⟨a', h⟩ := this
   exact ⟨a', by rw [handleNonRead_eq, h]⟩
 
